@@ -117,6 +117,27 @@ pub fn check(c: &DetCase, probe: &Probe) -> Verdict {
         if req.user_message().unwrap_or_default().contains("BAD") { crate::fakeai::Reply::Text("objection from the fake endpoint".into()) } else { crate::fakeai::Reply::Text("OK".into()) }
     });
     let fake_url = fake.url();
+    // in half of the cases the run also covers files recognised by whole name or compound suffix next to
+    // unsupported files that share their last name component (or have none): which file is visited first
+    // must not matter
+    let mut m = m;
+    if c.perm_seed & 4 != 0 {
+        let extras: [(&str, &str); 6] = [
+            ("Makefile", "# <block name=\"mk\" keep-sorted>\nb\na\n# </block>\n"),
+            ("LICENSE", "Permission is hereby granted # <block>\n"),
+            ("AUTHORS", "someone </block>\n"),
+            ("sub/go.mod", "module m\n// <block name=\"gm\" line-count=\"<1\">\nrequire a v1.0.0\n// </block>\n"),
+            ("sub/deps.mod", "// <block>\n"),
+            ("notes.d.ts", "// <block name=\"dts\" keep-unique>\nlet a;\nlet a;\n// </block>\n"),
+        ];
+        for (p, t) in extras {
+            m.pair.files.push((p.to_string(), None, Some(t.to_string()), None));
+            if !m.scan_paths.is_empty() {
+                m.scan_paths.push(p.to_string());
+            }
+        }
+        probe.class("with-whole-name-and-unsupported-files");
+    }
     let mut baseline: Option<(String, String)> = None; // (validate, list)
     let mut variants = 0u64;
     let mut description = String::new();
@@ -224,7 +245,7 @@ pub fn case_strategy() -> BoxedStrategy<DetCase> {
 }
 
 pub fn run(run: &mut Run) {
-    run.rule = "random: cases drawn from the generators of C11 (rule/severity mixes, scan or new-file diff), C01 (drift: edit scripts and real git diffs in generated modes) and C02 (touched blocks with rules), well-formed rules only; each case is materialised twice (files created in forward and in reverse order, fresh repositories) and run as `validate` and as `list` under a matrix: 3 repetitions (fresh processes => fresh hash seeds), pinned to one core, TOKIO_WORKER_THREADS 1 and 16, the diff's file sections rotated/reversed, and started from up to 2 sub-directories when no rule names a script path. Every variant must give the same exit status and the same diagnostics / listing (compared after sorting). Evaluations count runs. Non-trivial = >= 2 files and a non-empty diagnostics report.".into();
+    run.rule = "random: cases drawn from the generators of C11 (rule/severity mixes, scan or new-file diff), C01 (drift: edit scripts and real git diffs in generated modes) and C02 (touched blocks with rules), well-formed rules only, in half of the cases together with a Makefile, go.mod and .d.ts file holding violating blocks next to unsupported LICENSE / AUTHORS / deps.mod files; each case is materialised twice (files created in forward and in reverse order, fresh repositories) and run as `validate` and as `list` under a matrix: 3 repetitions (fresh processes => fresh hash seeds), pinned to one core, TOKIO_WORKER_THREADS 1 and 16, the diff's file sections rotated/reversed, and started from up to 2 sub-directories when no rule names a script path. Every variant must give the same exit status and the same diagnostics / listing (compared after sorting). Evaluations count runs. Non-trivial = >= 2 files and a non-empty diagnostics report.".into();
     run.assumptions = vec!["hash seeds and thread schedules are sampled by repetition, not enumerated".into(), "error texts of failing runs are compared by exit status only".into()];
     run.shrink_iters = 60;
     run.random("matrix", run.tier.pick(250, 5000), case_strategy, check);
